@@ -154,6 +154,38 @@ func buildC03Case(fn *irFunc) *c02Case {
 			return c
 		}
 		c.queries = append(c.queries, c02Query{"args", pre() + fmt.Sprintf("(assert (not (and %s (not %s) (not %s))))\n(check-sat)\n(get-model)\n", strings.Join(conds, " "), orS(fires...), ubAny)})
+	case "makeslice":
+		// makeslice__slice__<T>__lc: make([]int64, len, cap) with len and cap of type T
+		t, ok := goIntTypeOf(parts[2])
+		c.fnName = "ssa.Builder.MakeSlice"
+		c.oblig = fmt.Sprintf("ssa.Builder.MakeSlice/args[elem=%s,len,cap=%s]", map[string]string{"slice": "int64", "zslice": "struct{}"}[parts[1]], parts[2])
+		esz := map[string]int{"slice": 8, "zslice": 0}[parts[1]]
+		if !ok {
+			c.skip = "unknown size type"
+			return c
+		}
+		if c.skip != "" {
+			return c
+		}
+		i64 := goIntType{"int", 64, true}
+		wantL, wantC := goConvert(t, i64, "a0"), goConvert(t, i64, "a1")
+		var conds []string
+		found := false
+		for _, call := range ev.calls {
+			if call.name == "MakeSlice" && len(call.args) == 3 {
+				found = true
+				conds = append(conds,
+					fmt.Sprintf("(= %s %s)", call.args[0].t, wantL),
+					fmt.Sprintf("(= %s %s)", call.args[1].t, wantC),
+					fmt.Sprintf("(= %s (_ bv%d 64))", call.args[2].t, esz),
+					"(not "+orS(call.args[0].poison, call.args[1].poison)+")")
+			}
+		}
+		if !found {
+			c.skip = "no call of runtime.MakeSlice in the emitted code"
+			return c
+		}
+		c.queries = append(c.queries, c02Query{"args", pre() + fmt.Sprintf("(assert (not (and %s (not %s) (not %s))))\n(check-sat)\n(get-model)\n", strings.Join(conds, " "), orS(fires...), ubAny)})
 	default:
 		c.skip = "unknown case kind"
 	}
@@ -161,7 +193,7 @@ func buildC03Case(fn *irFunc) *c02Case {
 }
 
 func c03CompilerGoals(ck *Checker, rep *Report, opts *Options) []*Goal {
-	if opts.OnlyFn != "" && !strings.Contains("ssa.Builder.IndexAddr Index Slice ssa.Builder.TypeAssert", opts.OnlyFn) {
+	if opts.OnlyFn != "" && !strings.Contains("ssa.Builder.IndexAddr Index Slice ssa.Builder.TypeAssert ssa.Builder.MakeSlice", opts.OnlyFn) {
 		return nil
 	}
 	text, err := RunC02Harness(opts, "c03_emit_test.go", "c03")
